@@ -193,6 +193,8 @@ class Evaluator:
             v = self.ev(e.value)
             self.locals[e.target.id] = v
             return v
+        if isinstance(e, ast.Await):
+            return self.ev(e.value)  # the value of the awaited call (an atom stands for the result, not for the coroutine)
         if isinstance(e, (ast.SetComp, ast.ListComp, ast.GeneratorExp)) and len(e.generators) == 1 and isinstance(e.generators[0].target, ast.Name):
             # a comprehension over a concrete sequence (an atom gave the iterable): filter and map element by element
             g = e.generators[0]
